@@ -8,6 +8,7 @@ package main
 //
 //	e flow <src> <incl> <tok>:<dst>,…  |  e term <tok>
 //	r <reached> <cohort of 1>|<cohort of 2>|<cohort of 3>|<cohort of 4>      (cohort: comma list, "-" = empty)
+//	batch <pre> <changed> <notify>      the events after the first <pre> handled as one batch (bpmn.VerifTrackerBatch)
 
 import (
 	"fmt"
@@ -76,6 +77,17 @@ func c05trk(out *rec.Out, rng *rec.Rng, tier string, stats map[string]int) {
 					}
 				}
 				out.Line("r %d %s", rec.B(reached[i]), strings.Join(cs, "|"))
+			}
+			// the same events again, the last 2..l of them as ONE BATCH (what the tracker drains without seeing its channel
+			// empty in between): whenever the batch changes the tracker's records the node is woken after it
+			if l >= 2 {
+				pre := rng.Intn(l - 1)
+				changed, notify := bpmn.VerifTrackerBatch("7", evs, pre)
+				out.Line("batch %d %d %d", pre, rec.B(changed), rec.B(notify))
+				stats["batches"]++
+				if changed {
+					stats["batches_that_change_the_records"]++
+				}
 			}
 		}()
 		out.End()
